@@ -119,6 +119,11 @@ def run(ctx):
     # the generators' atoms (knight/king/pawn/slider attack sets, between, line) mean what the specification assumes
     # only if the look-up functions equal geometry (owned by C05)
     c05.run_lookups(ctx)
+    # "every accepted board": the generators lean on what the constructors' gate establishes (one king per side; with an
+    # en-passant file set every checker is the pushed pawn or a slider uncovered by the push -- the en-passant branch
+    # never looks at the check mask).  The gate and the validators' content are owned by C06 and re-run here.
+    from . import c06
+    c06.run_gate(ctx)
     ctx.explanation = expl
     ctx.assumptions += [
         "atoms of the set algebra (getter applications, table look-ups) are treated as independent; equivalence proved this way is sound",
